@@ -14,3 +14,12 @@ open XotModel.Props
 #print axioms C17_span_pi
 #print axioms C17_total_top
 #print axioms C17_total
+#print axioms C17_lex_slices
+#print axioms C17_lex_sliceOf
+#print axioms C17_lex_errpos
+#print axioms C17_lex_shape
+#print axioms C17_string_boundaries
+#print axioms C17_string_inside
+#print axioms C17_lex_ordered
+#print axioms C17_string_ordered
+#print axioms C17_lex_canonical_positions
